@@ -28,6 +28,8 @@ var HandSeeds = []string{
 	"x := (a + b) * c", "x := a[i][j]", "var f = x => x + 1", "onStart => {\n}", "func f() (int, error) { return 1, nil }", "x := [1, 2][0]", "x := {\"a\": [1]}[\"a\"][0]",
 	"func f() { g() }\nfunc h() {}", "x := func() int { return 1 }\ny := 2", "func (t T) m() int { return t.n } // tail\n\nvar v = 1",
 	"if (T{1}.ok()) {\n}", "for (T{2}.ok() && f(T{3})) {\n}", "switch (T{n: 1}.get().ok()) {\n}", "println args ...", "echo x /* c */ ...", "x := (<-ch).(T)", "y := (*p).(T)",
+	// tpl literals are parsed in-line by tpl/parser: rules with actions, complete and broken off
+	"x := tpl`a = INT => { return 1 }`", "x := tpl`a = INT => {`", "x := tpl`a = INT => 1`", "x := tpl`a = INT => { {`", "x := tpl`a = INT =>`", "x := tpl`a = INT => }`", "x := tpl`a = *(INT \",\") => { return self }\nb = a`",
 	// literals holding bytes the printer's tabwriter treats specially (raw TAB, form feed, vertical tab)
 	"x := '\t'", "s := \"a\tb\"", "r := `a\tb\nc\f`", "y := 'a'\nz := '\t' // c", "v := '\v'", "echo '\t', \"\t\", 1",
 	"import \"c\"\nC.printf c\"hi\\n\"", "x := py\"hi\"", "echo 1s + 2ms", "echo `raw`", "echo 'c', 1.5e3, 0x1F, 1i", "x, y := 1, 2", "var _ = struct{ A int }{1}",
